@@ -158,6 +158,7 @@ type result struct {
 	Restarts        int
 	Cancelled       int64
 	Rejected        int
+	Goroutines      string // goroutine dump taken when a hang was detected
 }
 
 type run struct {
@@ -185,6 +186,9 @@ func (r *run) fail(kind, f string, a ...any) {
 	defer r.mu.Unlock()
 	if r.res.Kind == "" {
 		r.res.Kind, r.res.Violation = kind, fmt.Sprintf(f, a...)
+		if kind == "hang" {
+			r.res.Goroutines = ctl.Dump()
+		}
 		if len(r.res.Trace) < 310 {
 			r.res.Trace = append(r.res.Trace, "VIOLATION "+kind+": "+r.res.Violation)
 		}
@@ -251,7 +255,7 @@ func (r *run) submit(t *taskRT) {
 }
 
 func (r *run) within(what string, f func()) bool {
-	if ctl.Within(ctl.HangTimeout, f) {
+	if withinHang(f) {
 		return true
 	}
 	r.fail("hang", "%s did not return within %s although every controller-held task it can depend on had been released; %s", what, ctl.HangTimeout, r.describe())
@@ -477,7 +481,7 @@ func (r *run) execute() result {
 				r.res.Restarts++
 			}
 			r.releaseIn(map[int]bool{s.Pool: true})
-			if !ctl.WaitChan(done, ctl.HangTimeout) {
+			if !waitHang(done) {
 				r.fail("hang", "p%d.Start() (restart after Shutdown) did not return within %s although all held tasks of the pool had been released; %s", s.Pool, ctl.HangTimeout, r.describe())
 				break
 			}
@@ -572,20 +576,23 @@ func (r *run) hooked(s step) {
 	hookState.Store(a)
 	hDone := make(chan struct{})
 	go func() { r.submit(t); close(hDone) }()
-	select {
-	case <-a.parked:
+	either := make(chan bool, 2)
+	go func() { <-a.parked; either <- true }()
+	go func() { <-hDone; either <- false }()
+	if parked, ok := patientRecv(either, ctl.HangTimeout); !ok {
+		r.fail("hang", "Submit to p%d neither returned nor reached the yield point within %s", s.Pool, ctl.HangTimeout)
+	} else if parked {
 		r.res.HookParked++
 		r.trace("  submitter parked between running-check and counter increment")
-	case <-hDone: // not accepted at all (pool not running): nothing to race with
-	case <-time.After(ctl.HangTimeout):
-		r.fail("hang", "Submit to p%d neither returned nor reached the yield point within %s", s.Pool, ctl.HangTimeout)
-	}
+	} // else: not accepted at all (pool not running): nothing to race with
 	var unparkOnce sync.Once
 	unpark := func() {
 		unparkOnce.Do(func() {
 			hookState.Store(nil)
-			a.taken.Store(true) // nobody parks any more; whoever is parked is released
-			close(a.release)
+			if a.taken.CompareAndSwap(false, true) {
+				close(a.parked) // nobody parked and nobody will: lets the helper goroutine above finish
+			}
+			close(a.release) // whoever is parked is released
 		})
 	}
 	if r.failed() {
@@ -619,18 +626,18 @@ func (r *run) hooked(s step) {
 		ctl.WaitChan(stDone, lateGrace)
 	}
 	unpark()
-	if !ctl.WaitChan(hDone, ctl.HangTimeout) {
+	if !waitHang(hDone) {
 		r.fail("hang", "Submit to p%d did not return within %s after the yield point released it", s.Pool, ctl.HangTimeout)
 		return
 	}
-	if !ctl.WaitChan(sDone, ctl.HangTimeout) {
+	if !waitHang(sDone) {
 		r.fail("hang", "p%d.Shutdown() racing with Submit did not return within %s; %s", s.Pool, ctl.HangTimeout, r.describe())
 		return
 	}
 	p.running = false
 	p.everShutdown = true
 	if wDone != nil {
-		if !ctl.WaitChan(wDone, ctl.HangTimeout) {
+		if !waitHang(wDone) {
 			r.fail("hang", "p%d.ShutdownComplete.Wait() after a Shutdown() that raced with Submit did not return within %s although all held tasks were released; %s", s.Pool, ctl.HangTimeout, r.describe())
 			return
 		}
@@ -639,7 +646,7 @@ func (r *run) hooked(s step) {
 		// its task ran before the workers finished; tasks starting later are caught by the closing phase
 	}
 	if stDone != nil {
-		if !ctl.WaitChan(stDone, ctl.HangTimeout) {
+		if !waitHang(stDone) {
 			r.fail("hang", "p%d.Start() after a Shutdown() that raced with Submit did not return within %s although all held tasks were released; %s", s.Pool, ctl.HangTimeout, r.describe())
 			return
 		}
